@@ -86,6 +86,28 @@ def AllRunsFinish : Nat → St → Prop
   | 0, s => K.finished s.k
   | n + 1, s => K.finished s.k ∨ ((∃ t s', step s t = some s') ∧ ∀ t s', step s t = some s' → AllRunsFinish n s')
 
+/-! ## C12.E.N — the same ghost flag on `K`'s own (non-atomic) steps
+`E` handles the tick event as one action. Here the engine moves by `K.step .eng` itself — `Dequeue`
+(removal) and `NotifyAllSubscribers` are separate actions that interleave with the application
+threads, exactly as in `C12.K` — and `owed` is updated as in `E`. Every run of `E` is a run of `N`. -/
+namespace N
+
+def step (s : St) : K.Th → Option St
+  | .eng => (K.step s.k .eng).map fun k' => { s with k := k' }
+  | t => E.step s t
+
+def runSched (s : St) : List K.Th → Option St
+  | [] => some s
+  | t :: ts => match step s t with
+    | none => none
+    | some s' => runSched s' ts
+
+inductive Reach : St → Prop
+  | init (scripts : List (List K.Op)) (nq : Nat) (h : ∀ sc ∈ scripts, K.okScript sc = true) : Reach (E.init scripts nq)
+  | step {s s' : St} (t : K.Th) : Reach s → step s t = some s' → Reach s'
+
+end N
+
 /-! ## C12.E.G — the same composition with ANY commands and the GPU port
 
 `E` reads the component off the protocol state, which is only possible for commands that complete
